@@ -125,7 +125,10 @@ struct Explorer {
       double tau_shape = d0ref::mon.min_qmargin < 1e-6 ? 5e-4 : 2e-4;
       // three margin classes: branch decisions and other literal tests (1e-6), the double-beta kernel's tests against its
       // tabulated / integrated spectra (tau = 10 x the measured table noise of this configuration), beta-sampler shapes
-      o.robust = o.margin >= 1e-6 && d0ref::mon.min_tmargin >= tau && d0ref::mon.min_smargin >= tau_shape;
+      // when the in-place clamp of fermi() fired (a lepton below 50 eV) the reference's own value of the spectrum function
+      // is ambiguous to ~5e-4: its expression uses the clamped variable on both sides of the call, in unspecified order
+      double tau_table = d0ref::mon.clamp_fired ? std::max(tau, 2e-3) : tau;
+      o.robust = o.margin >= 1e-6 && d0ref::mon.min_tmargin >= tau_table && d0ref::mon.min_smargin >= tau_shape;
       o.margin = std::min(std::min(o.margin, d0ref::mon.min_smargin), d0ref::mon.min_tmargin);
       if (!o.robust && count && !in_sweep) { nonrobust++; if (getenv("DX_DEBUG")) fprintf(stderr, "nonrobust: margin=%g line=%d tmargin=%g smargin=%g qmargin=%g forced=%s\n", d0ref::mon.min_margin, d0ref::mon.min_margin_line, d0ref::mon.min_tmargin, d0ref::mon.min_smargin, d0ref::mon.min_qmargin, vx::forced_to_json(f).c_str()); } // (ladder and sweep probes sit next to a threshold on purpose)
       validated++;
@@ -458,7 +461,7 @@ struct Explorer {
         if (!literals.empty()) site_roots[o.ctx[i]] = last_roots;
       }
     }
-    layer_execs["A"] = execs - before;
+    layer_execs["A"] += execs - before;
   }
 
   // ---- layer B: every execution with at most d forced positions, thresholds re-discovered per prefix
@@ -501,18 +504,18 @@ struct Explorer {
         }
       }
     }
-    layer_execs["H"] = execs - before;
+    layer_execs["H"] += execs - before;
   }
   void layer_B(int d)
   {
     long before = execs;
     layer_B_rec(Forced(), 0, d);
-    layer_execs[std::string("B") + std::to_string(d)] = execs - before;
+    layer_execs[std::string("B") + std::to_string(d)] += execs - before;
   }
 
   // ---- layer C: all discrete paths — DFS over choice points owning at least one literal threshold
   long c_cap = 200000;
-  std::map<uint32_t, std::vector<double>> lit_memo;
+  std::map<uint32_t, std::vector<Root>> lit_memo;
   bool c_exhaustive = true;
   void layer_C_rec(const Forced & f, size_t from)
   {
@@ -528,22 +531,27 @@ struct Explorer {
       // literal thresholds (branching ratios: p = 100*u against constants) depend on the site only: memo per site context
       auto mit = lit_memo.find(o.ctx[i]);
       if (mit == lit_memo.end()) {
-        std::vector<double> l0;
+        std::vector<Root> l0;
         for (auto & r : discover(f, i))
-          if (r.literal) l0.push_back(r.u);
+          if (r.literal) l0.push_back(r);
         mit = lit_memo.emplace(o.ctx[i], l0).first;
       }
-      std::vector<double> lit = mit->second;
-      if (lit.empty()) continue;
-      // interval representatives: just inside each side of every literal threshold
+      const std::vector<Root> & lr = mit->second; // sorted by discover()
+      if (lr.empty()) continue;
+      std::vector<double> lit;
+      for (auto & r : lr) lit.push_back(r.u);
+      // interval representatives: inside each side of every literal threshold, clear of it by the margin of its class
+      // (so that the path can be judged), but never beyond the middle of the interval
       std::vector<double> reps;
-      for (double u : lit) {
-        reps.push_back(u * (1 - 1e-5));
-        if (u * (1 + 1e-5) < 1) reps.push_back(u * (1 + 1e-5));
+      for (size_t k = 0; k < lr.size(); k++) {
+        double d = lr[k].cls == 1 ? 2e-3 : (lr[k].cls == 3 ? std::max(4 * tau, 1e-5) : 1e-5);
+        double lo = k > 0 ? 0.5 * (lr[k - 1].u + lr[k].u) : 0.5 * lr[k].u;
+        double hi = k + 1 < lr.size() ? 0.5 * (lr[k].u + lr[k + 1].u) : 0.5 * (lr[k].u + 1.0);
+        reps.push_back(std::max(lr[k].u * (1 - d), lo));
+        reps.push_back(std::min(lr[k].u * (1 + d), hi));
       }
       double cur = vx::Source{&f, PHASE}.at(i);
       // representative intervals: drop the one the current value already lies in
-      std::sort(lit.begin(), lit.end());
       auto interval = [&](double v) { return (int)(std::upper_bound(lit.begin(), lit.end(), v) - lit.begin()); };
       std::set<int> done = {interval(cur)};
       for (double v : reps) {
@@ -564,7 +572,7 @@ struct Explorer {
     if (!(use_ref && R.available)) return;
     c_before = execs;
     layer_C_rec(Forced(), 0);
-    layer_execs["C"] = execs - c_before;
+    layer_execs["C"] += execs - c_before;
   }
 };
 
@@ -608,6 +616,7 @@ struct Opts {
   int phases = 1;
   std::string litdir;
   bool calls = false;
+  long c_cap = 200000;
 };
 
 static std::string cfg_json(const Config & c)
@@ -624,6 +633,7 @@ static std::string run_config(const Config & c, const Opts & o)
   X.use_ref = o.ref;
   X.use_inv = o.inv;
   X.ccap = o.ccap;
+  X.c_cap = o.c_cap;
   X.deadline = t0 + o.deadline;
   X.P.via_gen = o.via_gen;
   E_TOL = o.etol;
@@ -856,6 +866,7 @@ int main(int argc, char ** argv)
     else if (a == "--etol") o.etol = atof(nxt().c_str());
     else if (a == "--litdir") o.litdir = nxt();
     else if (a == "--calls") o.calls = true;
+    else if (a == "--c-cap") o.c_cap = atol(nxt().c_str());
     else if (a == "--global-deadline") global_deadline = atof(nxt().c_str());
     else if (a == "--horizon") HORIZON = atol(nxt().c_str());
     else if (a == "--timeout") per_cfg_timeout = atof(nxt().c_str());
